@@ -87,8 +87,9 @@ def oracle_grid(lo: float, hi: float, p: float, g: np.ndarray) -> tuple[list[str
     if len(g) > 1 and not bool(np.all(np.diff(g) > 0)):
         errs.append("grid not strictly increasing")
     last = L + (len(g) - 1) * P
-    # ends at the last step not beyond the upper bound (tolerance of the code: min(1e-7, precision/2), never more than half a step)
-    tol = min(Fraction(TOL), P / 2)
+    # ends at the last step not beyond the upper bound (tolerance of the code: 1e-7 — or two float gaps at the magnitude of the
+    # bounds when that is larger — and never more than half a step)
+    tol = min(max(Fraction(TOL), 2 * Fraction(float(np.spacing(max(abs(lo), abs(hi)))))), P / 2)
     if last > H + tol + eps:
         errs.append(f"last element {float(g[-1])!r} beyond upper bound {hi!r} (+{float(tol)!r})")
     if last + P < H - eps:
@@ -103,10 +104,30 @@ def gen_wellformed(rng, chk):
     d = rng.choice([1, 1, 2, 3, 4, 6])
     lo, hi, pr = [], [], []
     for _ in range(d):
-        kind = rng.choice(["unit001", "multiple", "nonmultiple", "scaled", "dyadic", "tiny", "negative"])
+        kind = rng.choice(["unit001", "multiple", "nonmultiple", "scaled", "dyadic", "tiny", "negative", "offset", "offset", "narrow"])
         chk.count("param:" + kind)
         if kind == "unit001":
             l, h, p = 0.0, 1.0, 0.01
+        elif kind == "offset":
+            # bounds dominated by a large offset (1e3 .. 2^40): the end-point tolerance must neither be lost in the sum nor grow with the offset
+            base = rng.choice([10.0 ** rng.randint(3, 12), 2.0 ** rng.randint(10, 40)]) * rng.choice([1, -1])
+            p = rng.choice([0.35, 0.5, 1.0, 0.25, 0.7, 10.0, 0.125, abs(base) / 10, abs(base) / 64])
+            n = rng.randint(1, 300)
+            frac = rng.choice([0.0, 0.0, rng.uniform(0.55, 0.95), rng.uniform(0.05, 0.45)])
+            l = base if rng.random() < 0.7 else base - n * p
+            h = l + n * p + frac * p
+            if not (l < h and p <= h - l and abs(p) > 8 * np.spacing(max(abs(l), abs(h)))):
+                l, h, p = 1e6, 1e6 + 1.0, 0.35
+        elif kind == "narrow":
+            # a narrow range on a large offset: distinct bounds that agree to nine or more digits
+            e = rng.randint(10, 30)
+            l = (2.0 ** e) * rng.choice([1, -1]) * rng.choice([1.0, 1.5, 1.25])
+            w = 2.0 ** (e - rng.randint(31, 40))
+            k = rng.randint(1, 6)
+            h = l + w * (2 ** k)
+            p = w * rng.choice([1, 2, 0.5])
+            if not (l < h and p <= h - l):
+                l, h, p = -2.0 ** 20, -2.0 ** 20 + 2.0 ** -11, 2.0 ** -17
         elif kind == "dyadic":
             p = 2.0 ** rng.randint(-8, 3); l = rng.randint(-64, 64) * p; h = l + rng.randint(1, 2000) * p + rng.choice([0, 0, p / 2])
         elif kind == "tiny":
@@ -169,6 +190,18 @@ def run(chk: Check):
     for _ in range(3000 if chk.tier == "quick" else 60000):
         t = [rng.choice(one) for _ in range(3)]
         add_validation([[x[0] for x in t], [x[1] for x in t]], [x[2] for x in t], arr=rng.random() < 0.3)
+    # --- near-equal (but distinct) bounds on a large offset, in both orders, with precisions around the width
+    for _ in range(300 if chk.tier == "quick" else 4000):
+        d = rng.randint(1, 3)
+        lo, hi, pr = [], [], []
+        for _ in range(d):
+            e = rng.randint(8, 40)
+            a = (2.0 ** e) * rng.choice([1, -1]) * rng.choice([1.0, 1.5, 1.75])
+            w = 2.0 ** (e - rng.randint(30, 45))
+            b = a + w * rng.choice([1, 2, 8, -1, -4, 0])
+            lo.append(a); hi.append(b); pr.append(w * rng.choice([0.5, 1, 2, 16, 0]))
+        add_validation([lo, hi], pr)
+        chk.count("near_equal_bounds_on_offset")
     # --- shape malformations
     for _ in range(600):
         nb = rng.choice([0, 1, 2, 2, 2, 3, 4])
@@ -184,7 +217,7 @@ def run(chk: Check):
         reqs.append(f"ss.build {f2h(TOL)} " + req_lists(bounds, prec))
         meta.append(("build", bounds, prec, rng.random() < 0.3))
         fr = [Fraction(x) for x in bounds[0] + bounds[1] + prec]
-        if all(x.denominator <= 2 ** 12 and abs(x.numerator) < 2 ** 30 for x in fr):
+        if all(x.denominator <= 2 ** 12 and abs(x.numerator) < 2 ** 30 and abs(x) < 2 ** 26 for x in fr):
             # exactness domain: tol = 2^-24 so that it is dyadic too is NOT what the code does; compare Rat model with exact tol
             reqs.append(f"ss.buildq {frac_s(Fraction(TOL))} {len(bounds)} " + " ".join(
                 f"{len(b)} " + " ".join(frac_s(Fraction(x)) for x in b) for b in bounds)
